@@ -116,9 +116,14 @@ class QsModel:
                        f"(channel {j.channel}) is queued, unfinished and held by nobody",
                        conn=conn, job=j.tag())
 
+    server_started_at = None
+    OVERDUE_GRACE = 60.0
+
     def _event(self):
         self._check_pending_immediate()
         self.event_no += 1
+        if self.restarted and self.server_started_at is None and self.sim is not None:
+            self.server_started_at = self.sim.clock.time()
 
     def _finish(self, j, now, result=None, error=None, fin_ttl=None):
         if j.state == "d":
@@ -342,6 +347,10 @@ class QsModel:
         if j.state == "d":
             self._fail("R-notdone", f"{conn} was handed job {j.tag()} which already finished "
                        f"(error={j.error!r})", job=j.tag(), error=j.error)
+        if self.server_started_at is not None and j.deadline + self.OVERDUE_GRACE < self.server_started_at:
+            self._fail("R-timeout", f"{conn} was handed job {j.tag()} whose deadline had passed "
+                       f"{self.server_started_at - j.deadline:.0f} s before the restarted server came up "
+                       f"(restored jobs are still subject to their timeout)", job=j.tag())
         if j.state == "h":
             self._fail("I-dup", f"{conn} was handed job {j.tag()} while {j.holder} still holds it",
                        job=j.tag(), holder=j.holder)
@@ -483,6 +492,7 @@ class QsModel:
         self.dead = set()
         self.finished_count = {}
         self.inflight_possible = set()
+        self.server_started_at = None  # set by the first event of the new server
         self.probe("restart")
 
     # ---- quiescent-point invariants -------------------------------------------
